@@ -29,6 +29,7 @@ RULE = (
     "made by a non-create rule or a multi-chunk create; for (b) an array with a run crossing a block edge. "
     "Distinct by sha1 of the history / case."
     ' The small-block index part also stores real-valued counts (scaled by 1/4) and compares Cooler.info with the raw attributes and the exact total; bin tables with a lexically ordered categorical chrom column.'
+    " Part pool: coarsen_cooler / zoomify_cooler with a REAL worker pool (nproc 2..4) and chunk sizes 1..9 on coolers of up to 150 pixels (many spans of uneven size per batch): schema + content."
 )
 ASSUMPTIONS = [
     "'sum' is checked only when a 'count' column is stored (with columns=['x'] the attribute is undefined by the schema)",
@@ -614,7 +615,59 @@ def check_empty(case, ctx: Ctx):
     ctx.record(case, len(cols) > 1 and prod not in ("create-frame",), ["empty", "empty-" + prod, "cols=" + "+".join(cols)])
 
 
-CHECKS = {"history": check_history, "rle": check_rle, "index": check_index, "big": check_big, "empty": check_empty}
+@st.composite
+def pool_cases(draw):
+    bt = draw(gen.bin_tables(max_chroms=2, max_bins=12, max_width=6, scale=False))
+    n = gen.n_bins(bt)
+    sym = draw(st.booleans())
+    rows = draw(gen.pixels(n, sym, count=st.integers(1, 99), max_nnz=150))
+    return {"part": "pool", "bt": bt, "symmetric": sym, "rows": rows, "k": draw(st.integers(2, 3)),
+            "chunksize": draw(st.sampled_from([1, 2, 3, 5, 9])), "nproc": draw(st.sampled_from([2, 2, 3, 4])),
+            "producer": draw(st.sampled_from(["coarsen", "coarsen", "zoomify"]))}
+
+
+def check_pool(case, ctx: Ctx):
+    """Producers that hand their spans to a REAL worker pool (nproc > 1) with chunk sizes far below the pixel count: many
+    spans of uneven size per batch.  The output must satisfy the schema and hold the model's content whatever the pool does."""
+    import h5py
+
+    import cooler
+    from cooler.fileops import list_coolers
+
+    from ..coolio import create_from_model
+
+    bt, rows, sym, k = case["bt"], case["rows"], case["symmetric"], case["k"]
+    d = ctx.tmpdir()
+    try:
+        base = os.path.join(d, "base.cool")
+        call("create base", create_from_model, base, bt, rows, sym, h5opts={"compression": None})
+        if case["producer"] == "coarsen":
+            out = os.path.join(d, "out.cool")
+            call(f"coarsen_cooler(k={k}, chunksize={case['chunksize']}, nproc={case['nproc']})", cooler.coarsen_cooler, base, out, k,
+                 case["chunksize"], nproc=case["nproc"], h5opts={"compression": None})
+            levels = {"/": k}
+        else:
+            out = os.path.join(d, "out.mcool")
+            unit = model.true_binsize(bt) or 1
+            call(f"zoomify_cooler(x{k}, x{2 * k}, chunksize={case['chunksize']}, nproc={case['nproc']})", cooler.zoomify_cooler, base, out,
+                 [unit * k, unit * 2 * k], case["chunksize"], nproc=case["nproc"], h5opts={"compression": None})
+            levels = {f"/resolutions/{unit * k}": k, f"/resolutions/{unit * 2 * k}": 2 * k}
+        with h5py.File(out, "r") as f:
+            for g in list_coolers(out):
+                probs = schema.validate(f[g])
+                check(not probs, lambda: f"{case['producer']} with nproc={case['nproc']}, chunksize={case['chunksize']}: {g} violates the schema: {probs[:3]}")
+        for g, m in levels.items():
+            clr = cooler.Cooler(out + "::" + g)
+            df = clr.pixels()[:]
+            got = [[a, b, v] for a, b, v in zip(df["bin1_id"].tolist(), df["bin2_id"].tolist(), df["count"].tolist())]
+            want = model.coarsen_rows(bt, [r[:3] for r in rows], m, sym, ("sum",))
+            check(got == want, lambda: f"{case['producer']} with nproc={case['nproc']}, chunksize={case['chunksize']}: {g} holds {got[:6]}, want {want[:6]}")
+    finally:
+        ctx.clean(d)
+    ctx.record(case, len(rows) > 2 * case["chunksize"], ["pool", "pool-" + case["producer"], f"pool-nproc={case['nproc']}"])
+
+
+CHECKS = {"history": check_history, "rle": check_rle, "index": check_index, "big": check_big, "empty": check_empty, "pool": check_pool}
 
 
 def replay(ctx: Ctx, case):
@@ -637,5 +690,7 @@ def run(ctx: Ctx):
     if not run_given(ctx, "index", index_cases(), check_index, per_shard(ctx, 1200 if q else 40000), batch=100):
         return
     if not run_given(ctx, "empty", empty_cases(), check_empty, per_shard(ctx, 240 if q else 4000), batch=30):
+        return
+    if not run_given(ctx, "pool", pool_cases(), check_pool, per_shard(ctx, 96 if q else 1600), batch=6):
         return
     run_machine(ctx, "history", lambda: make_machine(ctx), per_shard(ctx, 120 if q else 2400), steps=8, batch=5)
